@@ -967,6 +967,8 @@ class Footnote(BlockToken):
                         count += 1
                     elif c == ')':
                         count -= 1
+                        if count < 0:
+                            return None
                 elif is_control_char(c):
                     return None
                 elif escaped:
